@@ -12,6 +12,12 @@ import (
 )
 
 func TestMain(m *testing.M) {
+	// every check publishes its current case; a case that does not return within the limit is written
+	// out as a suspected hang (confirmed by the driver in a fresh process) instead of blocking the shard
+	// until the test deadline. C14 cases are slow under the race detector, hence the generous limit.
+	if os.Getenv("VERIF_OUT") != "" {
+		core.StartWatchdog(30 * time.Second)
+	}
 	code := m.Run()
 	core.Flush(true)
 	os.Exit(code)
